@@ -232,6 +232,7 @@ fn void_after(kind: u8, as_of_s: i64, as_of_ns: i64) -> (i64, i64) {
     match kind {
         0 => (as_of_s + 5, as_of_ns),
         1 => (as_of_s + 10, as_of_ns),
+        3 => (as_of_s - 11, as_of_ns), // expires before it was taken: nothing the daemon writes, but a record in range
         _ => (as_of_s + 1000, 0),
     }
 }
@@ -490,7 +491,12 @@ pub fn run(ctx: &Ctx) -> i32 {
         return replay_case(ctx, p);
     }
     let which = ctx.prop.as_str();
-    let al = alphabets(ctx.tier);
+    let mut al = alphabets(ctx.tier);
+    if which == "C14" {
+        // C14 quantifies over all records in range, also ones whose void-after precedes their as-of (C05/C06 state
+        // their laws for records whose void-after is at least 5 s after as-of)
+        al.v_kinds.push(3);
+    }
     let mut sink = Sink::new();
     let mut stats = Stats::default();
 
@@ -611,13 +617,14 @@ pub fn run(ctx: &Ctx) -> i32 {
         ("samples", json!(samples)),
         ("exhaustive", json!(true)),
         ("exhaustive_of", json!("the stated finite alphabet product (not of the full input domain)")),
-        ("alphabets", json!({"as_of_sec": al.as_of_s, "as_of_nsec": al.as_of_ns, "void_after_kinds": al.v_kinds.iter().map(|k| ["as_of+5s", "as_of+10s", "daemon style (sec+1000, nsec 0)"][*k as usize]).collect::<Vec<_>>(),
+        ("alphabets", json!({"as_of_sec": al.as_of_s, "as_of_nsec": al.as_of_ns, "void_after_kinds": al.v_kinds.iter().map(|k| ["as_of+5s", "as_of+10s", "daemon style (sec+1000, nsec 0)", "as_of-11s"][*k as usize]).collect::<Vec<_>>(),
             "bound_nsec": al.bounds, "max_drift_ppb": al.drifts, "realtime_ns": al.reals.iter().map(|r| r.to_string()).collect::<Vec<_>>(),
             "age_ns": ages(1000 * S, blur).iter().map(|a| a.to_string()).collect::<Vec<_>>()})),
         ("outcome_classes", json!(stats.by_class)),
         ("intervals_returned", json!(stats.ok)),
         ("client_library_route_evaluations", json!(stats.client_route)),
         ("measured_causality_blur_ns", json!(blur.to_string())),
+        ("pass_with_debug_assertions_on", json!(std::env::var("VERIF_DBG_PASS").unwrap_or_else(|_| if cfg!(debug_assertions) { "this is that pass".into() } else { "not run (the harness was started directly)".into() }))),
         ("violation_counts_by_class", json!(sink.counts)),
     ]);
     if which == "C05" {
